@@ -835,7 +835,11 @@ fn process_incoming_text_message<T: Read + Write>(
                                             &fc.all_msgs,
                                             stream,
                                             command,
-                                            params.split_once(' ').unwrap().1,
+                                            // the params might be missing (parsing them fails then)
+                                            match params.split_once(' ') {
+                                                Some((_id, search_params)) => search_params,
+                                                None => "",
+                                            },
                                         ) {
                                             websocket
                                                 .write_message(Message::Text(format!(
